@@ -163,6 +163,33 @@ def predicate (c : Cmp) (l r : ASig α) : Except PyErr (ASig α) := do
   let d ← inter (fun a b => Val.sub a b) vne l r
   pure (dedup (d.map (fun p => (p.1, cmpOfDiff c p.2))))
 
+/-- `sat_val` of the interface-aware `visitPredicate`, from the difference `left - right`. -/
+def satOfDiff : Cmp → α → Bool
+  | .eq, d => !Val.lt d Val.zero && !Val.lt Val.zero d
+  | .ne, d => Val.lt Val.zero (Val.abs d)
+  | .le, d => !Val.lt Val.zero d
+  | .lt, d => Val.lt d Val.zero
+  | .ge, d => !Val.lt d Val.zero
+  | .gt, d => Val.lt Val.zero d
+
+/-- The output loop of the interface-aware `visitPredicate`: robustness and satisfaction are kept at the same positions,
+    those where the ROBUSTNESS differs from the previous one, and the last. -/
+def dedupGoK {γ : Type} (key : γ → α) : Option α → List (Tm × γ) → List (Tm × γ)
+  | _, [] => []
+  | _, [p] => [p]
+  | prev, p :: q :: rest =>
+      let keep := match prev with
+        | none => true
+        | some x => vne (key p.2) x
+      (if keep then [p] else []) ++ dedupGoK key (some (key p.2)) (q :: rest)
+
+/-- `IAStl…DenseTimeOfflineAstVisitor.visitPredicate` for an insensitive predicate: `mk sat` is `±inf` by satisfaction
+    (robustness semantics) or `0.0` (vacuity semantics). -/
+def predicateIA (c : Cmp) (mk : Bool → α) (l r : ASig α) : Except PyErr (ASig α) := do
+  let d ← inter (fun a b => Val.sub a b) vne l r
+  let both := dedupGoK (fun (x : α × Bool) => x.1) none (d.map (fun p => (p.1, (cmpOfDiff c p.2, satOfDiff c p.2))))
+  pure (both.map (fun p => (p.1, mk p.2.2)))
+
 /-- The method handed to `intersection` by the binary point-wise visitors. -/
 def binMethod : Bin → α → α → α
   | .pred c => fun a b => cmpOfDiff c (Val.sub a b)
@@ -323,7 +350,8 @@ def evalAlg (cfg : DCfg) (w : DEnv α) : F α → Except PyErr (ASig α)
       let r ← evalAlg cfg w ψ
       match op with
       | .pred c => predicate c l r
-      | .predSat _ | .predZero => .error .other          -- IA override: not mirrored here
+      | .predSat c => predicateIA c (fun b => if b then Val.pinf else Val.ninf) l r
+      | .predZero => .error .other          -- needs the comparison operator: see `evalAlgIA`
       | _ => inter (binMethod op) vne l r
   | .tmp1 op φ => do
       let s ← evalAlg cfg w φ
